@@ -2,9 +2,9 @@ SPECIFICATION Spec
 CONSTANTS
   D = 64
   SinglePassWhenNested = TRUE
-  Clips = FALSE
+  Clips = TRUE
   MaxChain = 1
-  N = 4
+  N = 3
   Kinds <- KindsSmall
 INVARIANTS OkIsBalanced ErrorsNamed WorkBound CaseDump
 CHECK_DEADLOCK FALSE
